@@ -35,6 +35,9 @@ OKind    == [t \in OTargets |-> KindOf(t)]
 OName    == [t \in OTargets |-> "n." \o t]
 OTables  == {{"t1", "tt", "tg"}, {"t1", "tu"}, {"t1"}}
 
+HT0 == {"t1", "t2", "td", "tx"}
+WT0 == {"t1", "t3"}
+OT0 == {"t1", "tt", "tg"}
 MCSym2 == Permutations({s1, s2})
 MCSym3 == Permutations({s1, s2, s3})
 =============================================================================
